@@ -282,4 +282,228 @@ example : (exState.pop exEnv).2.2 = .frame (.hdr 9 5) := by decide
 example : Served exEnv exState 2 9 [] [] := ⟨by decide, by decide⟩
 example : ((exState.pop exEnv).2.1.pop exEnv).2.2 = .frame (.hdr 7 4) := by decide
 
+/-! ## Multi-step theorems: consecutive `Pop`s
+
+`iter n st` is the state after `n` consecutive `Pop`s (nothing else happens in between; the windows only
+change by what the Pops themselves consume).  Hypotheses about "staying sendable" are stated per step. -/
+
+/-- scheduler + flow-control state -/
+abbrev St := Env × P9218
+
+def popSt (st : St) : St := ((st.2.pop st.1).1, (st.2.pop st.1).2.1)
+
+def iter : Nat → St → St
+  | 0, st => st
+  | n + 1, st => iter n (popSt st)
+
+/-- the `j`-th Pop (counting from 0) serves stream `x` of class `c` -/
+def ServesAt (st : St) (j c x : Nat) : Prop := ∃ pre post, Served (iter j st).1 (iter j st).2 c x pre post
+
+/-- `x` is sendable before the `j`-th Pop -/
+def SendableAt (st : St) (j x : Nat) : Prop := sendable (iter j st).1 ((iter j st).2.qs x) = true
+
+/-- before the `j`-th Pop no stream of a class more urgent than `c` is sendable -/
+def LowestAt (st : St) (j c : Nat) : Prop :=
+  ∀ c', c' / 2 < c / 2 → ∀ y ∈ (iter j st).2.ring c', sendable (iter j st).1 ((iter j st).2.qs y) = false
+
+theorem order_total : ∀ t : Bool, ∀ c < 16, ∀ c' < 16, c ≠ c' →
+    c ∈ (classOrder t).takeWhile (· != c') ∨ c' ∈ (classOrder t).takeWhile (· != c) := by decide
+
+theorem firstClass_ne_none {e : Env} {qs : Nat → WQ} {ring : Nat → List Nat} {cs : List Nat} {c x : Nat}
+    (hc : c ∈ cs) (hx : x ∈ ring c) (hs : sendable e (qs x) = true) : firstClass e qs ring cs ≠ none := by
+  intro h
+  have := firstClass_none h c hc x hx
+  rw [hs] at this; cases this
+
+/-- With the control queue empty and some stream sendable, `Pop` serves some stream. -/
+theorem served_exists {st : St} {c x : Nat} (hn : st.2.control.shift = none) (hc : c < 16) (hx : x ∈ st.2.ring c)
+    (hs : sendable st.1 (st.2.qs x) = true) : ∃ c' id pre post, Served st.1 st.2 c' id pre post := by
+  cases hf : firstClass st.1 st.2.qs st.2.ring (classOrder (!st.2.toggle)) with
+  | none => exact absurd hf (firstClass_ne_none (classOrder_complete _ c hc) hx hs)
+  | some t => obtain ⟨c', pre, id, post⟩ := t; exact ⟨c', id, pre, post, hn, hf⟩
+
+/-- If `x` (class `c`) is sendable and nothing more urgent is, the served class has `c`'s urgency. -/
+theorem served_same_urgency {st : St} {c x c' id : Nat} {pre post : List Nat} (hc : c < 16) (hx : x ∈ st.2.ring c)
+    (hs : sendable st.1 (st.2.qs x) = true)
+    (hlow : ∀ c'', c'' / 2 < c / 2 → ∀ y ∈ st.2.ring c'', sendable st.1 (st.2.qs y) = false)
+    (h : Served st.1 st.2 c' id pre post) : c' / 2 = c / 2 := by
+  obtain ⟨hmem, hring, hsend, _⟩ := firstClass_some h.found
+  have hc' := classOrder_lt _ c' hmem
+  apply Classical.byContradiction; intro hne
+  rcases Nat.lt_or_gt_of_ne hne with hlt | hgt
+  · have := hlow c' hlt id (by rw [hring]; simp)
+    rw [hsend] at this; cases this
+  · have := firstClass_before h.found c (order_urgency _ c' hc' c hc hgt) x hx
+    rw [hs] at this; cases this
+
+/-- ... and on the incremental class's turn it is class `c` itself (for incremental `c`). -/
+theorem served_inc_turn {st : St} {c x c' id : Nat} {pre post : List Nat} (hc : c < 16) (hodd : c % 2 = 1)
+    (hx : x ∈ st.2.ring c) (hs : sendable st.1 (st.2.qs x) = true)
+    (hlow : ∀ c'', c'' / 2 < c / 2 → ∀ y ∈ st.2.ring c'', sendable st.1 (st.2.qs y) = false)
+    (ht : st.2.toggle = false) (h : Served st.1 st.2 c' id pre post) : c' = c := by
+  have hu := served_same_urgency hc hx hs hlow h
+  have hc' := classOrder_lt _ c' (firstClass_some h.found).1
+  apply Classical.byContradiction; intro hne
+  have := firstClass_before h.found c
+    (order_preferred _ c' hc' c hc hu.symm (fun hh => hne hh.symm) (by simp [ht, hodd])) x hx
+  rw [hs] at this; cases this
+
+theorem mem_ring_pop {e : Env} {s : P9218} {c' id : Nat} {pre post : List Nat} (h : Served e s c' id pre post)
+    (c x : Nat) : x ∈ (s.pop e).2.1.ring c ↔ x ∈ s.ring c := by
+  obtain ⟨e', q', f, _, hp⟩ := pop_of_served h
+  obtain ⟨_, hring, _, _⟩ := firstClass_some h.found
+  rw [hp]
+  simp only [upd]
+  split
+  · rename_i heq; subst heq
+    rw [hring]
+    split <;> simp only [List.mem_append, List.mem_cons, List.mem_singleton] <;> grind
+  · rfl
+
+theorem control_pop {e : Env} {s : P9218} {c' id : Nat} {pre post : List Nat} (h : Served e s c' id pre post) :
+    (s.pop e).2.1.control = s.control ∧ (s.pop e).2.1.toggle = !s.toggle := by
+  obtain ⟨e', q', f, _, hp⟩ := pop_of_served h
+  rw [hp]; exact ⟨rfl, rfl⟩
+
+/-- potential: twice the distance of `x` from the head of its ring, plus one if the next Pop is the
+non-incremental class's turn -/
+def phi (c x : Nat) (s : P9218) : Nat := 2 * pos x (s.ring c) + (if s.toggle then 1 else 0)
+
+/-- One Pop that does not serve `x` lowers the potential. -/
+theorem phi_step {st : St} {c x : Nat} (hc : c < 16) (hodd : c % 2 = 1) (hn : st.2.control.shift = none)
+    (hx : x ∈ st.2.ring c) (hs : sendable st.1 (st.2.qs x) = true)
+    (hlow : ∀ c'', c'' / 2 < c / 2 → ∀ y ∈ st.2.ring c'', sendable st.1 (st.2.qs y) = false)
+    (hnot : ¬ ∃ pre post, Served st.1 st.2 c x pre post) :
+    phi c x (popSt st).2 + 1 ≤ phi c x st.2 ∧ (popSt st).2.control.shift = none ∧ x ∈ (popSt st).2.ring c := by
+  obtain ⟨c', id, pre, post, hsv⟩ := served_exists hn hc hx hs
+  obtain ⟨hctl, htog⟩ := control_pop hsv
+  have hmem := (mem_ring_pop hsv c x).2 hx
+  refine ⟨?_, by simp only [popSt]; rw [hctl]; exact hn, hmem⟩
+  simp only [phi, popSt, htog]
+  have hposle : pos x ((st.2.pop st.1).2.1.ring c) ≤ pos x (st.2.ring c) ∧
+      (c' = c → pos x ((st.2.pop st.1).2.1.ring c) + 1 ≤ pos x (st.2.ring c)) := by
+    by_cases hcc : c' = c
+    · subst hcc
+      have hid : x ≠ id := by intro hh; subst hh; exact hnot ⟨pre, post, hsv⟩
+      have := (inc_moves_forward hsv hodd x hx hid hs).1
+      exact ⟨by omega, fun _ => by omega⟩
+    · rw [pop_other_rings hsv c (fun hh => hcc hh.symm)]
+      exact ⟨Nat.le_refl _, fun hh => absurd hh hcc⟩
+  cases ht : st.2.toggle with
+  | false =>
+    have := served_inc_turn hc hodd hx hs hlow ht hsv
+    have := hposle.2 this
+    simp; omega
+  | true =>
+    have := hposle.1
+    simp; omega
+
+/-- **Bounded service, k-step form.**  Let `x` be a stream of the incremental class `c`.  Over `n`
+consecutive Pops during which the control queue is empty, `x` stays sendable and no more urgent class has a
+sendable stream: if none of the `n` Pops serves `x`, the potential `phi` has dropped by at least `n`. -/
+theorem inc_potential (c x : Nat) (hc : c < 16) (hodd : c % 2 = 1) : ∀ (n : Nat) (st : St),
+    st.2.control.shift = none → x ∈ st.2.ring c →
+    (∀ j, j < n → SendableAt st j x) → (∀ j, j < n → LowestAt st j c) → (∀ j, j < n → ¬ ServesAt st j c x) →
+    n + phi c x (iter n st).2 ≤ phi c x st.2 := by
+  intro n
+  induction n with
+  | zero => intro st _ _ _ _ _; simp [iter]
+  | succ k ih =>
+    intro st hn hx hs hl hnot
+    obtain ⟨h1, h2, h3⟩ := phi_step (st := st) hc hodd hn hx (hs 0 (by omega)) (hl 0 (by omega)) (hnot 0 (by omega))
+    have := ih (popSt st) h2 h3 (fun j hj => hs (j + 1) (by omega)) (fun j hj => hl (j + 1) (by omega))
+      (fun j hj => hnot (j + 1) (by omega))
+    simp only [iter]
+    omega
+
+/-- **Each sendable incremental stream is served within a bounded number of Pops.**  If the ring of the
+incremental class `c` holds `k` streams, `c` is at the lowest sendable urgency and stream `x` of that ring
+stays sendable, then one of any `2 * k` consecutive Pops serves `x` (`k` Pops of the class itself; the
+factor 2 is the alternation with the non-incremental class of the same urgency). -/
+theorem inc_served_within_2k (c x : Nat) (hc : c < 16) (hodd : c % 2 = 1) (st : St)
+    (hn : st.2.control.shift = none) (hx : x ∈ st.2.ring c)
+    (hs : ∀ j, j < 2 * (st.2.ring c).length → SendableAt st j x)
+    (hl : ∀ j, j < 2 * (st.2.ring c).length → LowestAt st j c) :
+    ∃ j, j < 2 * (st.2.ring c).length ∧ ServesAt st j c x := by
+  apply Classical.byContradiction; intro hno
+  have hnot : ∀ j, j < 2 * (st.2.ring c).length → ¬ ServesAt st j c x := fun j hj hh => hno ⟨j, hj, hh⟩
+  have h := inc_potential c x hc hodd _ st hn hx hs hl hnot
+  have hp := pos_lt_length hx
+  have : phi c x st.2 ≤ 2 * pos x (st.2.ring c) + 1 := by
+    simp only [phi]; split <;> omega
+  omega
+
+/-- **A non-incremental stream is served until it has nothing sendable.**  Once stream `x` of the
+non-incremental class `c` is at the head of its ring (it is after being served: `noninc_becomes_head`),
+then over any number of consecutive Pops during which `x` stays sendable, every Pop that serves class `c`
+serves `x`, and `x` stays at the head. -/
+theorem noninc_served_until (c x : Nat) (hev : c % 2 = 0) : ∀ (n : Nat) (st : St),
+    st.2.control.shift = none → (st.2.ring c).head? = some x → (∀ j, j < n → SendableAt st j x) →
+    (∀ j id, j < n → ServesAt st j c id → id = x) ∧ ((iter n st).2.ring c).head? = some x := by
+  intro n
+  induction n with
+  | zero => intro st _ hh _; exact ⟨fun j id hj => absurd hj (by omega), hh⟩
+  | succ k ih =>
+    intro st hn hh hs
+    have hs0 : sendable st.1 (st.2.qs x) = true := hs 0 (by omega)
+    obtain ⟨tl, hring⟩ : ∃ tl, st.2.ring c = x :: tl := by
+      cases hr : st.2.ring c with
+      | nil => rw [hr] at hh; cases hh
+      | cons a tl => rw [hr] at hh; simp at hh; subst hh; exact ⟨tl, rfl⟩
+    have hx : x ∈ st.2.ring c := by rw [hring]; simp
+    -- the first Pop
+    have hfirst : (∀ id, ServesAt st 0 c id → id = x) ∧ (popSt st).2.control.shift = none ∧
+        ((popSt st).2.ring c).head? = some x := by
+      cases hf : firstClass st.1 st.2.qs st.2.ring (classOrder (!st.2.toggle)) with
+      | none =>
+        refine ⟨?_, ?_, ?_⟩
+        · rintro id ⟨pre, post, hsv⟩; have := hsv.found; simp only [iter] at this; rw [hf] at this; cases this
+        · simp [popSt, P9218.pop, hn, hf]
+        · simp [popSt, P9218.pop, hn, hf, hh]
+      | some t =>
+        obtain ⟨c', pre, id, post⟩ := t
+        have hsv : Served st.1 st.2 c' id pre post := ⟨hn, hf⟩
+        obtain ⟨hctl, _⟩ := control_pop hsv
+        refine ⟨?_, by simp only [popSt]; rw [hctl]; exact hn, ?_⟩
+        · rintro id2 ⟨pre2, post2, hsv2⟩
+          exact (head_served_first hsv2 hring hs0).1
+        · by_cases hcc : c' = c
+          · subst hcc
+            have := (head_served_first hsv hring hs0).1
+            subst this
+            simp only [popSt]
+            exact noninc_becomes_head hsv hev
+          · simp only [popSt]
+            rw [pop_other_rings hsv c (fun h => hcc h.symm)]; exact hh
+    obtain ⟨f1, f2, f3⟩ := hfirst
+    obtain ⟨g1, g2⟩ := ih (popSt st) f2 f3 (fun j hj => hs (j + 1) (by omega))
+    refine ⟨?_, by simpa [iter] using g2⟩
+    intro j id hj hsv
+    cases j with
+    | zero => exact f1 id hsv
+    | succ j' => exact g1 j' id (by omega) hsv
+
+/-! ### Non-vacuity of the multi-step theorems: three incremental streams of urgency 3 with two frames
+each; stream 5 is last in the ring (k = 3) and is served by the third Pop (index 2 < 2 * 3). -/
+
+def exInc : P9218 :=
+  let s0 : P9218 := {}
+  let s1 := (s0.openStream 1 7).1
+  let s2 := (s1.openStream 3 7).1
+  let s3 := (s2.openStream 5 7).1
+  let s4 := (s3.push (.hdr 1 1)).1
+  let s5 := (s4.push (.hdr 3 2)).1
+  let s6 := (s5.push (.hdr 5 3)).1
+  let s7 := (s6.push (.hdr 1 4)).1
+  let s8 := (s7.push (.hdr 3 5)).1
+  (s8.push (.hdr 5 6)).1
+
+example : exInc.ring 7 = [1, 3, 5] ∧ exInc.control.shift = none := by decide
+example : ((List.range 6).map fun j => ((iter j (exEnv, exInc)).2.pop exEnv).2.2) =
+    [.frame (.hdr 1 1), .frame (.hdr 3 2), .frame (.hdr 5 3), .frame (.hdr 1 4), .frame (.hdr 3 5), .frame (.hdr 5 6)] := by
+  decide
+example : ServesAt (exEnv, exInc) 2 7 5 := ⟨[], [1, 3], by decide, by decide⟩
+example : ∀ j, j < 3 → SendableAt (exEnv, exInc) j 5 := by
+  simp only [SendableAt]; decide
+
 end NetVerif.Proofs.C13
